@@ -21,9 +21,10 @@ import (
 )
 
 type seg struct {
-	name string
-	sql  string
-	ntok int
+	name  string
+	sql   string
+	words []string // the lexemes sql was rendered from (a lexeme may contain blanks: string values, quoted names)
+	ntok  int
 	// cntOK: the parser's token count of the statement this segment was cut from equals its lexeme count (the tokenizer
 	// merges some keyword pairs and the converter splits only some of them again), so ntok can be trusted
 	cntOK bool
@@ -35,6 +36,9 @@ var stmtStart = map[string]bool{"SELECT": true, "INSERT": true, "UPDATE": true, 
 	"MERGE": true, "REFRESH": true, "TRUNCATE": true, "GRANT": true, "REVOKE": true, "SET": true, "BEGIN": true, "COMMIT": true, "ROLLBACK": true}
 
 func x(v sqlgen.X) *sqlgen.X { return &v }
+
+// colWidth is the number of columns a one-line text occupies in the tokenizer's reckoning (a tab counts as four columns).
+func colWidth(s string) int { return len(s) + 3*strings.Count(s, "\t") }
 
 func validStatements() []sqlgen.S {
 	one := 1
@@ -52,6 +56,9 @@ func validStatements() []sqlgen.S {
 
 func mkseg(name string, toks []sqlgen.Tok) seg {
 	s := seg{name: name, sql: sqlgen.Render(toks, sqlgen.LSpaced), ntok: len(toks)}
+	for _, t := range toks {
+		s.words = append(s.words, t.S)
+	}
 	if t, err := gosqlx.Parse(s.sql); err == nil {
 		s.ok = true
 		s.tree = sqlgen.DumpNorm(t.Statements)
@@ -210,8 +217,8 @@ errs:
 					if countable && (pe.TokenIdx < start || pe.TokenIdx >= end+1) {
 						c.Fail("error-token-outside-segment@"+s.name, fmt.Sprintf("error %d names token %d, its segment spans tokens [%d,%d): %v", j, pe.TokenIdx, start, end, errs[j]))
 					}
-					if pe.Line == 1 && (pe.Column < off+1 || pe.Column > off+len(s.sql)+3) {
-						c.Fail("error-location-outside-segment@"+s.name, fmt.Sprintf("error %d is reported at column %d, its segment spans columns [%d,%d] (separator included): %v", j, pe.Column, off+1, off+len(s.sql)+3, errs[j]))
+					if pe.Line == 1 && (pe.Column < off+1 || pe.Column > off+colWidth(s.sql)+3) {
+						c.Fail("error-location-outside-segment@"+s.name, fmt.Sprintf("error %d is reported at column %d, its segment spans columns [%d,%d] (separator included): %v", j, pe.Column, off+1, off+colWidth(s.sql)+3, errs[j]))
 					}
 				} else {
 					c.Fail("error-not-parse-error@"+s.name, fmt.Sprintf("error %d is not a *parser.ParseError: %T %v", j, errs[j], errs[j]))
@@ -219,7 +226,7 @@ errs:
 				j++
 			}
 			start = end + 1       // the separating semicolon
-			off += len(s.sql) + 3 // " ; "
+			off += colWidth(s.sql) + 3 // " ; "
 		}
 	}
 	c.Outcome(fmt.Sprintf("segments=%d bad=%d", len(segs), nbad))
@@ -251,7 +258,10 @@ func prefixKept(segs []seg, got string, flat func(string) string) string {
 			continue
 		}
 		alts[i] = []alt{{"", ""}}
-		words := strings.Fields(s.sql) // LSpaced: one lexeme per word except string literals with blanks (none in these pools)
+		words := s.words
+		if len(words) == 0 {
+			words = strings.Fields(s.sql) // segments that were not built from lexemes
+		}
 		seen := map[string]bool{}
 		for k := 1; k < len(words); k++ {
 			if t, err := gosqlx.Parse(strings.Join(words[:k], " ")); err == nil {
